@@ -526,6 +526,9 @@ func run(c *lib.Ctx) {
 	// Small scenarios are dealt whole to one shard (which records them once);
 	// the kill points of large ones (many calls, slow child) are dealt over
 	// all shards, each of which makes its own recording.
+	if c.Mine(7) && os.Getenv("VERIF_C14_ONLY") == "" {
+		concurrentSaves(c)
+	}
 	idx := 0
 	for si, sc := range scenarios(c.Tier) {
 		if c.Expired() {
@@ -644,10 +647,73 @@ func (r *runner) explore(rec *recording) {
 	})
 }
 
+// concurrentSaves: two configuration saves at the same time (the API handlers
+// and the periodic workers all end in configuration.write).  Free-running under
+// the race detector (engine E4): no data race in the writer, and the stored
+// file is one complete document.
+func concurrentSaves(c *lib.Ctx) {
+	bin := os.Getenv("VERIF_RACE_BIN")
+	if bin == "" {
+		c.EngineError("race binary not provided (VERIF_RACE_BIN)")
+		return
+	}
+	reps := 3
+	if c.Tier == "thorough" {
+		reps = 12
+	}
+	for i := 0; i < reps; i++ {
+		dir, err := os.MkdirTemp(c.TmpDir, "c14r-")
+		if err != nil {
+			c.EngineError(err.Error())
+			return
+		}
+		ctx, cancel := context.WithTimeout(context.Background(), 2*time.Minute)
+		cmd := exec.CommandContext(ctx, bin, "-race-child", "-dir", dir, "-rounds", "40")
+		cmd.Env = []string{"GORACE=halt_on_error=0", "PATH=/usr/bin:/bin", "HOME=/nonexistent", "TMPDIR=" + dir}
+		out, rerr := cmd.CombinedOutput()
+		cancel()
+		_ = os.RemoveAll(dir)
+		c.Count("evals", 1)
+		c.Count("concurrent_save_runs", 1)
+		text := string(out)
+		cs := caseC{Scenario: scenario{Kind: "config-concurrent"}, Mode: "race"}
+		switch {
+		case strings.Contains(text, "WARNING: DATA RACE"):
+			site := "unknown"
+			for _, l := range strings.Split(text, "\n") {
+				if j := strings.Index(l, "/internal/"); j >= 0 && strings.Contains(l, ".go:") && !strings.Contains(l, "/verifx/") {
+					site = strings.Fields(l[j+1:])[0]
+					break
+				}
+			}
+			if len(text) > 3000 {
+				text = text[:3000]
+			}
+			c.Violation("concurrent-saves:data-race:"+site, "two concurrent configuration saves race on shared memory (what is renamed into place may be torn):\n"+text, cs)
+			return
+		case strings.Contains(text, "TORN "):
+			c.Violation("concurrent-saves:torn-file", "after two goroutines saved the configuration concurrently the file is not one complete document: "+text, cs)
+			return
+		case rerr != nil || !strings.Contains(text, "RACE-CHILD-DONE"):
+			c.EngineError(fmt.Sprintf("concurrent-saves child failed: %v: %s", rerr, text))
+			return
+		}
+	}
+	c.Distinct("nontrivial", "concurrent-saves")
+}
+
 func replay(c *lib.Ctx, raw json.RawMessage) string {
 	var cs caseC
 	if err := json.Unmarshal(raw, &cs); err != nil {
 		return err.Error()
+	}
+	if cs.Mode == "race" {
+		before := c.NumViolationKeys()
+		concurrentSaves(c)
+		if c.NumViolationKeys() > before {
+			return "violation reproduced (concurrent saves)"
+		}
+		return ""
 	}
 	self, _ := os.Executable()
 	r := &runner{c: c, sc: cs.Scenario, self: self}
@@ -693,6 +759,9 @@ func main() {
 	if len(os.Args) > 1 && os.Args[1] == "-child" {
 		os.Exit(childMain(os.Args[2:]))
 	}
+	if len(os.Args) > 1 && os.Args[1] == "-race-child" {
+		os.Exit(raceChildMain(os.Args[2:]))
+	}
 	lib.Main(&lib.Harness{
 		Prop: "C14", Level: "fault_enumeration",
 		Shards: func(string) int { return 16 },
@@ -714,13 +783,14 @@ func main() {
 				"kill_runs_diverged_and_retried": m.Counters["kill_runs_diverged_retried"],
 				"scenarios":                      m.Counters["scenarios"],
 				"failing_save_scenarios":         m.Counters["failing_save_scenarios"],
+				"concurrent_save_runs":           m.Counters["concurrent_save_runs"],
 				"recorded_window_calls":          m.Counters["recorded_window_calls"],
 				"distinct_nontrivial":            m.Distinct["nontrivial"],
 				"distinct_kill_outcomes":         m.Distinct["outcomes"],
 				"distinct_powerloss_classes":     m.Distinct["powerloss_classes"],
 				"distinct_file_sizes":            m.Distinct["file_sizes"],
 				"max_file_bytes":                 m.Maxes["max_file_bytes"],
-				"rule": "3 writers (home.configuration.write, dhcpd onNotify->dbStore->writeDB, filtering tryRefreshFilters->updateIntl->finalizeUpdate) plus the loader's schema-upgrade rewrite, " +
+				"rule": "free-running race-detector runs of two goroutines saving the configuration concurrently (no data race in the writer, the stored file is one complete document); 3 writers (home.configuration.write, dhcpd onNotify->dbStore->writeDB, filtering tryRefreshFilters->updateIntl->finalizeUpdate) plus the loader's schema-upgrade rewrite, " +
 					"a refresh / a set_url whose download breaks half-way, set_url that succeeds, and for each of the 3 writers at 4096 B and 1 MiB a save 1 during which no file may grow beyond half / all but one byte of its size (RLIMIT_FSIZE; the save fails and must leave the previous version), x wanted sizes " +
 					"{0,1,4095,4096,4097,1 MiB}(+32 MiB thorough; the writer's minimum where smaller sizes cannot exist: configuration 3519 B, lease database 141 B = one lease, filter list 0 B only as the middle version and 2 B instead of 1 B) x destination {present, absent} before x temporary-file placement " +
 					"{next to destination, other directory}; per scenario two successive saves; (a) one real SIGKILL on entry to every file-system call touching the working directory between " +
